@@ -31,6 +31,8 @@ type Layout struct {
 	Remote     map[string]string `json:"remote,omitempty"` // sim://name -> local path (stub ResourceLoader)
 	CliEnvFiles []string `json:"cli_env_files,omitempty"` // explicit --env-file arguments (cli entry)
 	Stdin      string   `json:"stdin,omitempty"`         // content served on standard input (compose file "-")
+	CliProfilesFromEnv bool `json:"cli_profiles_from_env,omitempty"` // cli entry: cli.WithDefaultProfiles() (COMPOSE_PROFILES) instead of explicit profiles
+	CliSharedOptionFns bool `json:"cli_shared_option_fns,omitempty"` // cli entry: option function VALUES built once per process and reused for every load
 }
 
 type LoadOpts struct {
